@@ -129,6 +129,11 @@ Print Assumptions C17_interp_segment.
 
 (* non-vacuity: each regime is reached by a concrete register file (p = 7, 128 registers), the
    interpolation hypotheses hold of a shipped row, and an interior point uses the two-point form *)
+(* the model indexes the tables by p - 7; the offset in HyperLogLog.__init__ is re-read from the source *)
+Theorem C17_table_offset : Consts.hll_table_offset = 7%Z.
+Proof. exact table_offset_ok. Qed.
+Print Assumptions C17_table_offset.
+
 Example C17_regimes_nonvacuous :
   map (fun rle => query_regime 7 (expand_rle rle))
       [[(0, 100); (1, 28)]; [(0, 20); (1, 60); (2, 48)]; [(1, 60); (2, 68)]; [(9, 128)]]
